@@ -21,6 +21,8 @@ OWN = [
     ('own_scaled', "z = 1\nwhile true:\n    z = -z\n    x = 3*x + y**2 + z\n    y = 3*y - y**2\nend", ['x', 'y'], 1),
     # homogeneous coefficient 1 with an effective part that depends on n (a probabilistic counter): the particular solution is a genuine sum over n
     ('own_k1_counter', "z = 0\nwhile true:\n    z = z + 1 {1/2} z\n    x = x + y**2 + z\n    y = y - y**2 + 2*z\nend", ['x', 'y'], 1),
+    # random initial values: E(x0**2) != E(x0)**2, E(x0*y0) != E(x0)*E(y0) -- the initial value of a candidate monomial must be taken as a whole
+    ('own_random_init', "x = DiscreteUniform(0, 2)\ny = 1\nwhile true:\n    z = Bernoulli(1/2)\n    if z == 0:\n        x, y = x + x*y, (1/3)*x + (2/3)*y + (x*y)\n    else:\n        x, y = x + y + (2/3)*x*y, 2*y + (2/3)*(x*y)\n    end\nend", ['x', 'y'], 2),
     ('own_k1_toggle', "t = 0\nwhile true:\n    t = 1 - t\n    x = x + y**2 + t\n    y = y - y**2 + 3*t\nend", ['x', 'y'], 1),
 ]
 
